@@ -8,6 +8,7 @@ dense-output blocks and the latch state.
 """
 from fractions import Fraction
 
+import os
 import tast
 from poly import Poly, opaque, DEFS, fresh
 from symx import SymExec, Hooks, Buf, Ref
@@ -291,7 +292,9 @@ def interest_keys(body):
 _VCACHE = {}
 
 
-def analyse_variants(facts, fn_def, max_split=5, **kw):
+def analyse_variants(facts, fn_def, max_split=None, **kw):
+    if max_split is None:
+        max_split = int(os.environ.get("IVP_MAX_SPLIT", "5"))
     ck = (id(facts), fn_def, max_split, repr(sorted((k, repr(v)) for k, v in kw.items())))
     if ck not in _VCACHE:
         _VCACHE[ck] = _analyse_variants(facts, fn_def, max_split, **kw)
